@@ -243,11 +243,14 @@ class Translator:
     # ----------------------------------------------------------------- function translation
     def translate_all(self):
         out = []
+        self.outputs = {}          # lean name -> text (translated functions only)
         for name, fi in self.fns.items():
             try:
                 if fi.fn.body is None:
                     raise Untranslatable("parse error: " + str(fi.fn.error))
-                out.append(self.translate_fn(fi))
+                t = self.translate_fn(fi)
+                out.append(t)
+                self.outputs[fi.lean_name] = t
             except (Untranslatable, ParseError) as ex:
                 self.errors[name] = str(ex)
         return "\n\n".join(out)
@@ -2367,14 +2370,14 @@ TREE_FUNCS.update({n: n for n in ["capacity", "len", "is_full", "is_empty", "fin
               "insert", "remove", "get_mut", "from_bytes_mut"]})
 
 TREE_HEADER = '''/-
-  GENERATED by tools/rust2lean.py from {path} — do not edit.
+  GENERATED by tools/rust2lean.py from {path} (group {group}) — do not edit.
   A syntax-directed transliteration of the Rust functions into Lean `do` notation (see the translator's
   docstring for the conventions). `Stevia/Proofs/GenTree.lean` proves each definition equal to the literal
   model `Stevia.Imp.*`.
 -/
 import Stevia.Model.TreeImp
 import Stevia.Model.Fuel
-
+{imports}
 namespace Stevia
 namespace {ns}
 open Imp
@@ -2414,31 +2417,55 @@ def order_functions(tr):
     return out
 
 
+# The tree files are emitted as five modules per source, so that a function that cannot be translated (or whose bridge
+# no longer closes) takes down only the theorems that depend on it: `<Out>Bal` (height registers, rotations, rebalance),
+# `<Out>Alloc` (slot allocator, initialize), `<Out>Query` (read-only queries, get_mut), `<Out>Open` (from_bytes_mut),
+# `<Out>Ops` (insert, remove - imports the first three).
+TREE_GROUPS = [
+    ("Bal", ["update_height", "update_child", "balance_factor", "left_rotate", "right_rotate", "rebalance"], []),
+    ("Alloc", ["alloc_initialize", "node_initialize", "initialize_tree", "add", "remove_node"], []),
+    ("Query", ["capacity", "len", "is_full", "is_empty", "find", "get", "contains", "lowest", "get_mut"], []),
+    ("Open", ["from_bytes_mut"], []),
+    ("Ops", ["insert", "remove"], ["Bal", "Alloc", "Query"]),
+]
+
+
 def gen_tree(rel, ns, bits, outname):
     path = os.path.join(REPO, rel)
     report = {"source": rel, "namespace": ns, "translated": [], "untranslatable": {}, "missing": []}
+    outputs = {}
     try:
         src = open(path).read()
         tr = TreeProfile(src, TREE_FUNCS, bits)
         order = order_functions(tr)
         tr.fns = {n: tr.fns[n] for n in order}
-        body = tr.translate_all()
+        tr.translate_all()
+        outputs = dict(tr.outputs)
         report["translated"] = [n for n in tr.fns if n not in tr.errors]
         report["untranslatable"] = tr.errors
         report["missing"] = tr.missing
         d_, err_ = alloc_initialize(src, r"impl\s+(U8)?Allocator", TreeProfile.FIELDS, ["root", "size", "cap", "flh", "seq", "pad"], "TreeImage α β")
         if d_:
-            body = d_ + "\n\n" + body
+            outputs["alloc_initialize"] = d_
             report["translated"].append("alloc_initialize")
         else:
             report["untranslatable"]["alloc_initialize"] = err_
         if not tr.height_ok:
             report["untranslatable"]["<Register::Height used as a branch value>"] = "Bool encoding of branches unsound"
+            outputs = {}
     except (OSError, ParseError) as ex:
-        body = ""
         report["untranslatable"]["<file>"] = str(ex)
-    text = TREE_HEADER.format(path=rel, ns=ns) + body + f"\n\nend {ns}\nend Stevia\n"
-    write_if_changed(os.path.join(GEN, outname), text)
+    base = outname[:-len(".lean")]
+    for group, names, deps in TREE_GROUPS:
+        imports = "".join(f"import Stevia.Generated.{base}{d}\n" for d in deps)
+        body = "\n\n".join(outputs[n] for n in names if n in outputs)
+        text = TREE_HEADER.format(path=rel, ns=ns, group=group, imports=imports) + body + f"\n\nend {ns}\nend Stevia\n"
+        write_if_changed(os.path.join(GEN, f"{base}{group}.lean"), text)
+    # the former single-file output
+    try:
+        os.remove(os.path.join(GEN, outname))
+    except OSError:
+        pass
     return report
 
 
